@@ -97,6 +97,7 @@ type thread struct {
 	wake      int64
 	spinEpoch uint64
 	burn      int
+	writes    int
 	resWrite  bool
 	resOK     bool
 	resVal    uint64
@@ -120,6 +121,9 @@ type Stall struct {
 	T   int `json:"t"`
 	At  int `json:"at"`
 	For int `json:"for"`
+	// AfterW > 0: the stall starts right after the thread's AfterW-th write (successful CAS,
+	// store, add, unlock) instead of at step At: preempted in the middle of a multi-write update
+	AfterW int `json:"after_w,omitempty"`
 }
 
 type Config struct {
@@ -181,26 +185,27 @@ type Result struct {
 }
 
 type Sim struct {
-	active bool
-	kill   bool
-	turn   int32
-	cur    int32
-	n      int
-	th     [MaxThreads]thread
-	seq    uint64
-	wEpoch uint64
-	clock  int64
-	timers []*Timer
-	rng    uint64
-	cfg    Config
-	addrs  []uintptr
-	hash   uint64
-	log    []Event
-	open   int
-	res    Result
-	prio   [MaxThreads]int
-	pctAt  []int
-	burner int
+	active    bool
+	kill      bool
+	turn      int32
+	cur       int32
+	n         int
+	th        [MaxThreads]thread
+	seq       uint64
+	wEpoch    uint64
+	clock     int64
+	timers    []*Timer
+	rng       uint64
+	cfg       Config
+	addrs     []uintptr
+	hash      uint64
+	log       []Event
+	open      int
+	res       Result
+	prio      [MaxThreads]int
+	pctAt     []int
+	burner    int
+	stallFrom []int
 }
 
 var S Sim
@@ -589,7 +594,19 @@ func threadDone(t int) {
 func (s *Sim) stalled(t, step int) bool {
 	for i := range s.cfg.Stalls {
 		st := &s.cfg.Stalls[i]
-		if st.T == t && step >= st.At && step < st.At+st.For {
+		at := st.At
+		if st.AfterW > 0 && st.T == t {
+			if s.th[t].writes < st.AfterW {
+				continue
+			}
+			if s.stallFrom[i] == 0 {
+				s.stallFrom[i] = step + 1
+			}
+			at = s.stallFrom[i] - 1
+		}
+		if st.T == t && step >= at && (step < at+st.For || (st.For < 0 && s.res.Burns < s.cfg.SpinBurn)) {
+			// For < 0: descheduled for as long as the run's spin budget lasts, i.e. while
+			// a peer can still burn attempts waiting for this thread
 			return true
 		}
 	}
@@ -715,6 +732,7 @@ func (s *Sim) dispatch(t int) {
 	s.event(t, k, s.sym(addr), th.resOK, val)
 	if th.resWrite || k == KUnlock || k == KRUnlock {
 		s.wEpoch++
+		th.writes++
 	}
 }
 
@@ -735,6 +753,7 @@ func Run(cfg Config, n int, body func(int)) Result {
 	s.turn = Ctl
 	s.cur = Ctl
 	s.burner = -1
+	s.stallFrom = make([]int, len(cfg.Stalls))
 	chanRegs = chanRegs[:0]
 	s.active = true
 	for t := 0; t < n; t++ {
